@@ -812,6 +812,22 @@ func diffTampers() []tamper {
 			}
 			return false
 		}, false, false}, // same resulting state: only the committed diff hash / length distinguishes it
+		{"diff.empty-storage-entry-added", func(e *chain.Entry) bool {
+			// an entry without slots for an existing contract: legal on the wire, changes no state, but it is part of the
+			// committed state diff (contract count and [address, 0] element)
+			d := cp(e)
+			for _, a := range []felt.Felt{chain.AddrA, chain.AddrB, chain.AddrC} {
+				if _, ok := e.State.Contracts[a]; !ok {
+					continue
+				}
+				if _, has := d.StorageDiffs[a]; has {
+					continue
+				}
+				d.StorageDiffs[a] = map[felt.Felt]*felt.Felt{}
+				return true
+			}
+			return false
+		}, false, false},
 		{"diff.nonce-value", func(e *chain.Entry) bool {
 			d := cp(e)
 			if a, ok := firstAddr(d.Nonces); ok {
